@@ -92,11 +92,15 @@ pub fn tcase_strategy(thorough: bool) -> BoxedStrategy<TCase> {
 fn build_tinylfu(c: &TCase) -> Result<TinyLFU<u64, KHS<u64>>, String> {
     #[cfg(feature = "std")]
     caches::lfu::verif_pin_sketch_seed(c.sketch_seed);
-    let r = TinyLFUBuilder::<u64, KHS<u64>>::with_hasher(mk_khs::<u64Key>(c.kh).into_u64())
-        .set_size(c.size)
-        .set_samples(c.samples)
-        .set_false_positive_ratio(c.fp)
-        .finalize();
+    // four builder call sequences (entry point, setter order, values set twice); which one is
+    // a function of the case's sketch seed (any u64, independent of everything else)
+    let kh = || mk_khs::<u64Key>(c.kh).into_u64();
+    let r = match c.sketch_seed.unwrap_or(0) % 4 {
+        0 => TinyLFUBuilder::<u64, KHS<u64>>::with_hasher(kh()).set_size(c.size).set_samples(c.samples).set_false_positive_ratio(c.fp).finalize(),
+        1 => TinyLFUBuilder::<u64>::new(c.size, c.samples).set_false_positive_ratio(c.fp).set_key_hasher(kh()).finalize(),
+        2 => TinyLFUBuilder::<u64>::new(c.samples + 3, c.size + 5).set_key_hasher(kh()).set_false_positive_ratio(0.5).set_samples(c.samples).set_false_positive_ratio(c.fp).set_size(c.size).finalize(),
+        _ => TinyLFU::from_builder(TinyLFUBuilder::<u64>::default().set_false_positive_ratio(c.fp).set_samples(c.samples).set_key_hasher(kh()).set_size(c.size)),
+    };
     #[cfg(feature = "std")]
     caches::lfu::verif_pin_sketch_seed(None);
     r.map_err(|e| e.to_string())
